@@ -525,7 +525,7 @@ def run(ctx: lib.Ctx) -> None:
         ctx.corpus_cases += 1
     for t in FIXED_TYPES:
         add_type(t, 8, 'fixed')
-    ntypes = ctx.n(350, 6000)
+    ntypes = ctx.n(260, 6000)
     for i in range(ntypes):
         depth = rng.choice([1, 1, 2, 2, 3, 3, 4, 5])
         k = rng.random()
@@ -594,3 +594,32 @@ def run(ctx: lib.Ctx) -> None:
                         'observed': a if q[0] != 'list' else [[k, ty_json(x)] for k, x in (a or [])],
                         'model': ctx.coq_eval(IMPORTS, f'std_run {ty_coq(t)} {query_coq(q)}')})
         ctx.violation('implementation no longer corresponds to the model the theorems are about', rep, found=False)
+
+
+def replay(ctx: lib.Ctx, doc: dict) -> int:
+    """./check C13 --replay file: re-run the stored input on the current /repo; 1 = the property still fails on it."""
+    if 'type_tuple' not in doc or 'query' not in doc:
+        print('replay: no concrete input in this file (correspondence-only verdict)')
+        return 0
+    t = ty_from_jsonable(doc['type_tuple'])
+    q = tuple(doc['query'])
+    sp = spec(t)
+    impl = Impl(t)
+    if q[0] == 'from' and len(q) == 3:
+        # recover the (entrypoint path, leaf path) annotation when the entrypoint is listed
+        ep = {k: p for k, p, _ in sp['branches']}
+        ep[sp['root']] = ''
+        q = q + ((ep[q[1]], _leaf_path(q[2])) if q[1] in ep else None,)
+    a = run_query(impl, q)
+    why = oracle(impl, t, q, a, sp) if sp['wf'] else None
+    print(f'replay: observed {a!r}')
+    print(f'replay: {"FAILS: " + why if why else "property holds on this input now"}')
+    return 1 if why else 0
+
+
+def _leaf_path(v):
+    p = ''
+    while isinstance(v, dict) and v.get('prim') in ('Left', 'Right') and v.get('args'):
+        p += '0' if v['prim'] == 'Left' else '1'
+        v = v['args'][0]
+    return p
